@@ -180,10 +180,13 @@ func runRealPool(c *verdict.Ctx, idx int) {
 			return abci.ResponseCheckTx{GasWanted: 1, Priority: int64(binary.BigEndian.Uint64(h[:8]) >> 1)}
 		}},
 		MempoolFactory: func(conns proxy.AppConns, st sm.State) mempl.Mempool {
+			// constructed as node.createMempoolAndMempoolReactor does
 			if cfg.Version == cfgpkg.MempoolV1 {
-				rec.Mempool = mempoolv1.NewTxMempool(log.NewNopLogger(), mcfg, conns.Mempool(), st.LastBlockHeight)
+				rec.Mempool = mempoolv1.NewTxMempool(log.NewNopLogger(), mcfg, conns.Mempool(), st.LastBlockHeight,
+					mempoolv1.WithPreCheck(sm.TxPreCheck(st)), mempoolv1.WithPostCheck(sm.TxPostCheck(st)))
 			} else {
-				rec.Mempool = mempoolv0.NewCListMempool(mcfg, conns.Mempool(), st.LastBlockHeight)
+				rec.Mempool = mempoolv0.NewCListMempool(mcfg, conns.Mempool(), st.LastBlockHeight,
+					mempoolv0.WithPreCheck(sm.TxPreCheck(st)), mempoolv0.WithPostCheck(sm.TxPostCheck(st)))
 			}
 			return rec
 		}}
@@ -233,7 +236,7 @@ func runRealPool(c *verdict.Ctx, idx int) {
 		// fill the pool beyond what any block can take
 		want := maxB + maxB/4 + 2*maxCost
 		have := rec.SizeBytes() + 2*int64(rec.Size())
-		added := 0
+		added, refused := 0, 0
 		for have < want {
 			l := lens[r.Intn(len(lens))]
 			if cfg.Band == "mixed" && txCost(l) > maxB/4 && r.Intn(10) != 0 {
@@ -248,6 +251,11 @@ func runRealPool(c *verdict.Ctx, idx int) {
 				}
 			}
 			if err := rec.CheckTx(tx, nil, mempl.TxInfo{}); err != nil {
+				if _, ok := err.(mempl.ErrPreCheck); ok && refused < 2000 {
+					// larger than the data budget of the current state: a correct mempool does not keep it
+					refused++
+					continue
+				}
 				c.HarnessError("realpool case %d: CheckTx of a fresh %d-byte transaction: %v", idx, len(tx), err)
 				return
 			}
@@ -255,6 +263,7 @@ func runRealPool(c *verdict.Ctx, idx int) {
 			added++
 		}
 		pending, pendingBytes := rec.Size(), rec.SizeBytes()
+		poolCost := types.ComputeProtoSizeForTxs(rec.Mempool.ReapMaxBytesMaxGas(-1, -1)) // everything pending, as the block encoding accounts it
 		evp.full = len(evp.items) > 0
 		var offered int64
 		if evp.full {
@@ -278,7 +287,7 @@ func runRealPool(c *verdict.Ctx, idx int) {
 		evp.full = false
 		c.Eval()
 		desc := map[string]interface{}{"stream": "realpool", "case": idx, "config": cfg, "height": height, "proposal_no": p,
-			"pool_txs": pending, "pool_bytes": pendingBytes, "evidence_bytes_offered": offered, "block_max_bytes": maxB,
+			"pool_txs": pending, "pool_bytes": pendingBytes, "pool_accounted_bytes": poolCost, "evidence_bytes_offered": offered, "block_max_bytes": maxB,
 			"validators": len(st.Validators.Validators), "last_commit_slots": len(lastCommit.Signatures), "absent_slots": absent}
 		if pan != nil {
 			desc["panic"] = fmt.Sprint(pan)
@@ -288,6 +297,7 @@ func runRealPool(c *verdict.Ctx, idx int) {
 		desc["data_budget_offered"], desc["data_bytes_returned"], desc["txs"] = rec.lastMax, rec.lastSz, rec.lastN
 		c.Distinct("realpool", idx, p)
 		c.Count("realpool.blocks", 1)
+		c.Count("realpool.txs refused by the mempool's size pre-check", int64(refused))
 		c.Count("realpool.txs in blocks", int64(len(blk.Data.Txs)))
 		c.Max("realpool.max txs in one block", int64(len(blk.Data.Txs)))
 		if len(blk.Evidence.Evidence) > 0 {
@@ -296,8 +306,8 @@ func runRealPool(c *verdict.Ctx, idx int) {
 		if absent > 0 {
 			c.Count("realpool.blocks with absent commit slots", 1)
 		}
-		if pendingBytes > maxB {
-			c.Count("realpool.pool held more bytes than Block.MaxBytes", 1)
+		if poolCost > maxB {
+			c.Count("realpool.pool held more accounted bytes than Block.MaxBytes", 1)
 		}
 		// (c) coverage only: is the block needlessly empty / is the budget used up to the next pending tx?
 		minCost := txCost(lens[0])
